@@ -351,6 +351,18 @@ func (x *Interp) execStmt(fr *frame, st *Stmt) {
 		if x.cur.Idx == st.N && (st.Kind != "gen" || !x.sawFalsified) {
 			x.exec(fr, st.Body)
 		}
+	case "ifinvge":
+		// true from the N-th invocation on, "ifinvmod": in every invocation whose index is D modulo N. Only for
+		// properties that are never falsified (C09: a property that needs no input, or starts to draw late, or is
+		// skipped now and then for reasons of its own): what Check owes such a property does not depend on its being
+		// a function of its draws
+		if x.cur.Idx >= st.N {
+			x.exec(fr, st.Body)
+		}
+	case "ifinvmod":
+		if st.N > 0 && int64(x.cur.Idx%st.N) == st.D {
+			x.exec(fr, st.Body)
+		}
 	case "sig":
 		x.signal(fr, st)
 	case "skip":
